@@ -8,6 +8,7 @@ import (
 	"encoding/json"
 	"fmt"
 	"io/ioutil"
+	stdlog "log"
 	"os"
 	"strconv"
 	"strings"
@@ -37,6 +38,7 @@ func main() {
 		os.Exit(2)
 	}
 	log.SetOutput(ioutil.Discard)
+	stdlog.SetOutput(ioutil.Discard)
 	log.SetLevel(log.PanicLevel)
 	run, ok := runners[os.Args[1]]
 	if !ok {
